@@ -262,14 +262,15 @@ def check_wait(c, f):
 def check_reuse(c, repo, f):
     g = f.cfg
     st = [n for n in g.nodes if n.kind == 'stmt' and stmt_assigns_attr(n.ast, 'async_pw_transport') is not None]
-    ld = [n for n in g.nodes if n.kind == 'stmt' and isinstance(n.ast, ast.Assign) and isinstance(n.ast.value, ast.Attribute)
-          and n.ast.value.attr == 'async_pw_transport']
+    # the unpacking of the stored pair: from the field, or from a local that holds it (read once at the top of the call)
+    ld = [n for n in g.nodes if n.kind == 'stmt' and isinstance(n.ast, ast.Assign) and isinstance(n.ast.targets[0], ast.Tuple)
+          and ctext(n.ast.value, f, stale_ok=True).endswith('.async_pw_transport')]
     c.need(len(st) == 1 and len(ld) == 1, 'expect_async: store / load of async_pw_transport not found')
     sv = st[0].ast.value
     lt = ld[0].ast.targets[0]
     ok = isinstance(sv, ast.Tuple) and isinstance(lt, ast.Tuple) and [norm(e) for e in sv.elts] == [norm(e) for e in lt.elts]
     c.check(ok, f, ld[0].ast, 'the (protocol, transport) pair is unpacked in the order it was stored', witness='%s vs %s' % (norm(sv), norm(lt)), kind='ast', tag='pair-order')
-    t = [x for x in g.nodes if x.kind == 'test' and 'async_pw_transport' in norm(x.ast)]
+    t = [x for x in g.nodes if x.kind == 'test' and x.ast is not None and 'async_pw_transport' in ctext(x.ast, f, stale_ok=True)]
     c.need(len(t) == 1, 'first-use test not found')
     first_edge = 'true' if norm(t[0].ast).startswith('not') else 'false'
     fr = guard_region(g, t[0], first_edge)
